@@ -123,6 +123,73 @@ def _pred_views(sl, p, outcome=True, depth=0):
     return out
 
 
+def _lossy(p, depth=0):
+    """the boolean value p is the join of a branch (`a && b` computed with a jump is phi(false, b)): its being true also
+    depends on the branch decision, which the value does not show"""
+    if not isinstance(p, tuple) or not p or depth > 6:
+        return False
+    p = strip(p)
+    if p[0] == 'un':
+        return _lossy(p[2], depth + 1)
+    if p[0] == 'bin':
+        return _lossy(p[2], depth + 1) or _lossy(p[3], depth + 1)
+    return p[0] == 'phi'
+
+
+def _closure_pred_views(sl, clv, args, outcome=True):
+    """a boolean closure written with branches (`|r| !r.is_symlink() && r.is_dir()`, `if c { x } else { false }`): every
+    decision its returning `outcome` depends on — the value assigned on the one path that can yield `outcome` *and* the
+    branch decisions that lead there — in the caller's terms.  None if the closure is not of that shape"""
+    from .lib.guards import conditions
+    from .lib.value import subst
+    if not (isinstance(clv, tuple) and clv and clv[0] == 'closure'):
+        return None
+    g = sl.prog.fns.get(clv[1])
+    if g is None or sl.apply_closure(clv, args) is None:     # (also creates the symbolic-capture slicer)
+        return None
+    sym = sl._sym
+    defs = g.whole_defs(0)
+    if len(defs) < 2:
+        return None
+    m = {(g.path, 1 + i): a for i, a in enumerate(args)}
+    for i, uv in enumerate(clv[2]):
+        m[('upvar', g.path, i)] = uv
+    cands = []
+    for d in defs:
+        if d[0] not in ('stmt', 'call') or g.in_loop(d[1]):
+            return None
+        val = subst(sym._def_value(g, d, set(), 0), m, sl)
+        if strip(val) == ('const', not outcome):
+            continue
+        cands.append((d, val))
+    if len(cands) != 1:
+        return None
+    d, val = cands[0]
+    if _lossy(val):
+        return None
+    out = []
+    if strip(val) != ('const', outcome):
+        out.extend(_pred_views(sl, val, outcome))
+    for cd in conditions(g, d[1], sym):
+        if cd.kind != 'bool' or _lossy(cd.value):
+            return None
+        for x in _pred_views(sl, subst(cd.value, m, sl), cd.outcome):
+            if x not in out:
+                out.append(x)
+    return out
+
+
+def _filter_views(sl, clv, args):
+    """(views that hold for an element the predicate closure accepts, complete?)"""
+    pv = _closure_pred_views(sl, clv, args)
+    if pv is not None:
+        return pv, True
+    p = sl.apply_closure(clv, args)
+    if p is None:
+        return [], False
+    return _pred_views(sl, p), not _lossy(p)
+
+
 def _optional(sl, r, depth):
     """an Option-valued closure result as elements: [(payload, guards, opaque)] or None if r is not an Option shape"""
     r = strip(r) if isinstance(r, tuple) and r else r
@@ -135,11 +202,11 @@ def _optional(sl, r, depth):
             return [(r[3][0][1], (), False)]
         return None
     if r[0] == 'call' and len(r[2]) == 2 and r[1] in THEN_SOME:
-        return [(r[2][1], tuple(_pred_views(sl, r[2][0])), False)]
+        return [(r[2][1], tuple(_pred_views(sl, r[2][0])), _lossy(r[2][0]))]
     if r[0] == 'call' and len(r[2]) == 2 and r[1] in THEN:
         x = sl.apply_closure(r[2][1], ())
         if x is not None:
-            return [(x, tuple(_pred_views(sl, r[2][0])), False)]
+            return [(x, tuple(_pred_views(sl, r[2][0])), _lossy(r[2][0]))]
         return None
     if r[0] == 'phi' and depth < 6:
         out = []
@@ -180,14 +247,16 @@ def _closure_optional(sl, clv, args):
             return None
         payload = subst(sym.operand(g, d[3]['ops'][0]), m, sl)
         guards = []
+        lossy = False
         for cd in conditions(g, d[1], sym):
             if cd.kind != 'bool':
                 continue
+            lossy = lossy or _lossy(cd.value)
             for v, oc in cd.views():
                 for x in _pred_views(sl, subst(v, m, sl), oc):
                     if x not in guards:
                         guards.append(x)
-        out.append((payload, tuple(guards), False))
+        out.append((payload, tuple(guards), lossy))
     return out
 
 
@@ -238,9 +307,8 @@ def elements(sl, v, depth=0):
         if name == IT + 'filter' and len(args) == 2:
             out = []
             for e, f, g, o in elements(sl, args[0], depth + 1):
-                p = sl.apply_closure(args[1], (e,))
-                pv = _pred_views(sl, p) if p is not None else []
-                out.append((e, f, g + tuple(x for x in pv if x not in g), o or not pv))
+                pv, complete = _filter_views(sl, args[1], (e,))
+                out.append((e, f, g + tuple(x for x in pv if x not in g), o or not pv or not complete))
             return out
         if name in FEWER:
             return [(e, f, g, True) for e, f, g, o in elements(sl, args[0], depth + 1)]
@@ -335,6 +403,49 @@ def constructed(prog, sl, g, fields=FIELDS):
 
 
 
+# ---- inserts into a delta that a private helper creates, fills and returns -------------------------------------------
+def _creation(v):
+    """(callee name, site) of a value that is the result of one particular call (`LayerEnvDelta::new()` at bb0 of the
+    helper): the identity of the object, independent of the argument spelling.  None for anything else"""
+    v = strip(v)
+    if v[0] == 'agg' and v[1] == 'std::result::Result' and v[2] == 'Ok' and len(v[3]) == 1:
+        v = strip(v[3][0][1])       # `Ok(delta)`: the caller's `?` / unwrap names the payload
+    if v[0] == 'call' and len(v) == 4 and isinstance(v[3], tuple) and len(v[3]) == 2 and isinstance(v[3][0], str):
+        return v[1], v[3]
+    return None
+
+
+def returned_into(prog, sl, g, ok, target, levels, fields=FIELDS):
+    """`fn from_rows(rows) -> LayerEnvDelta { let mut d = LayerEnvDelta::new(); for .. { d.insert(..) } d }` with
+    `LayerEnv { layer_paths_build: from_rows(&[..]), .. }`: the insert acts on the object the helper creates, the helper
+    returns that very object (its return value *is* the creation call, not an alternative of it), and the result of the
+    call of the helper that is on the effect's chain *is* what the field of the returned LayerEnv is constructed with
+    (again exactly, not one alternative).  -> the field name, or None if the object cannot be followed into one of
+    `fields` that way (then the insert is what it looks like: an insert into some other delta)"""
+    ident = _creation(target)
+    for _ in range(6):
+        if ident is None:
+            return None
+        name, (fpath, bb) = ident
+        if fpath == g.path:
+            for fld in fields:
+                if _creation(sl._field(ok, fld)) == ident:
+                    # no other field / alternative is constructed with the same object
+                    if not any(_creation(sl._field(ok, o)) == ident for o in fields if o != fld):
+                        return fld
+            return None
+        h = prog.fns.get(fpath)
+        if h is None or h.kind == 'Closure' or (isinstance(bb, int) and h.in_loop(bb)):
+            return None
+        if _creation(sl.local(h, 0)) != ident:
+            return None     # the helper returns something else (or only sometimes this object)
+        up = [c for c, _ in levels if c.name == fpath and not c.indirect]
+        if len(up) != 1:
+            return None
+        ident = (fpath, (up[0].fn.path, up[0].bb))
+    return None
+
+
 # ---- loop elements that become literal rows only at the call site ---------------------------------------------------
 def _replace(v, key, new):
     """v with every sub-value whose canonical form is `key` replaced by `new`"""
@@ -383,6 +494,28 @@ def _adapter_rows(E, e, coll):
             common = [gd for gd in els[0][2] if all(gd in x[2] for x in els[1:])]
             out.append((row, tuple(g0) + tuple(gd for gd in common if gd not in g0), o0 or any(x[3] for x in els)))
         return out
+    # a `for` loop of a private helper over a pipeline on a parameter (`for &(n, p) in specs.iter().filter(pred)` with the
+    # table handed in by the caller): the loop element is named after the caller's table; the stages in the loop header
+    # decide for which rows the body runs.  The header pipeline in the entry function's terms, evaluated row by row.
+    for call, m in reversed(level_calls(e)):
+        plain = dict(m or {})
+        plain.pop('__repl__', None)
+        for lp in sorted(E.loops(call.fn), key=lambda l: len(l.body)):
+            if call.bb not in lp.body or call.bb == lp.header or lp.collection is None:
+                continue
+            recv = E.subst(lp.collection, plain)
+            if not any(x[0] == 'array' and canon(x) == key for x in _walk(recv)):
+                continue
+            out = []
+            for row, g0, o0 in rows:
+                els = elements(sl, _replace(recv, key, ('array', (row,))))
+                if any(fa is not None for _, fa, _, _ in els):
+                    return None
+                if not els:
+                    continue
+                common = [gd for gd in els[0][2] if all(gd in x[2] for x in els[1:])]
+                out.append((row, tuple(g0) + tuple(gd for gd in common if gd not in g0), o0 or any(x[3] for x in els)))
+            return out
     # the adapter call is not on the chain: the rows are known, what filters them is not
     return [(row, g, True) for row, g, _ in rows]
 
@@ -533,6 +666,9 @@ def header_guards(E, e):
     for call, m in level_calls(e):
         m = m or {}
         for key, row in m.get('__repl__', ()) or ():
+            if _is_loop_elem(row) and any(canon(x) == canon(row) for a in e.args[:4] for x in _walk(a)):
+                continue        # not one row but "the element" of the caller's table: unrolled() evaluates the header
+                                # pipeline row by row (_adapter_rows), with the predicates of each row
             for lp in E.loops(call.fn):
                 if call.bb not in lp.body or lp.collection is None or iters.loop_key(lp.collection) != key:
                     continue
@@ -580,6 +716,11 @@ def header_guards(E, e):
                 guards.append(gd)
         opaque = opaque or hit[0][3]
     return guards, opaque
+
+
+def _is_loop_elem(v):
+    return isinstance(v, tuple) and len(v) == 2 and v[0] == 'unwrap' and isinstance(v[1], tuple) and len(v[1]) == 4 and \
+        v[1][0] == 'call' and v[1][1] == IT + 'next' and v[1][3] is None
 
 
 def creation_fn(prog, g):
